@@ -15,7 +15,7 @@ import twins
 META = {
     "level": "other",
     "technique": "static analysis: evaluated-constant relations, MIR isomorphism of twin implementations modulo a named substitution, provenance of the cached count (rustc_private driver)",
-    "explanation": "The arithmetic of rank/select is not decided. What is decided are four necessary conditions the test suite cannot see: "
+    "explanation": "The arithmetic of rank/select is not decided. What is decided are five necessary conditions the test suite cannot see: "
                    "(1) the sampling constants (block, superblock, masks, relative-rank packing) satisfy the relations the algorithms assume, "
                    "and BitVector::load validates with the same constants; (2) each pair of twin implementations -- SelectSupport::select "
                    "vs select_unchecked, Complement::word vs word_unchecked, BitVector::{select, select_iter, one_iter} vs their zero "
@@ -23,7 +23,8 @@ META = {
                    "is never reached by the suite) is reported with the two diverging statements; (3) every BitVector outside load stores "
                    "ones = count_ones() of the same data; (4) what SelectSupport::new stores and what select() reads agree: offsets in "
                    "long/short are relative to the position sample pushed for the superblock, and the long/short tag parity is written "
-                   "and tested alike.",
+                   "and tested alike; (5) the arguments of the BitVector queries reach no unguarded checked arithmetic, panic edge or "
+                   "unwrap (raw-value propagation from the BitVector entry points), so `for every argument` cannot fail by overflow.",
     "trusted_base": ["rustc's MIR and constant evaluation"],
     "assumptions": ["an edit applied identically to both twins is not detected by R2 (stated limit)"],
 }
@@ -141,6 +142,18 @@ def check_config(ctx, F, tag):
     ctx.count("bitvector-aggregates" + tag, n)
     ctx.floor("bitvector-aggregates" + tag, 2)
     check_select_layout(ctx, F, tag)
+    # R5: "for every argument" -- the query arguments of the plain bitvector reach no unguarded arithmetic / unwrap (A3, restricted to
+    # the BitVector entry points; the same analysis decides C09 for all types)
+    import c09
+    entries, an = c09.run_analysis(F)
+    for fn in sorted(entries):
+        if fn.startswith("<bit_vector::BitVector as ops::"):
+            alarms = [k for k, a in an.alarms.items() if a["fn"] == fn or (a.get("chain") or "").endswith(fn + " (arg 1) <- <entry>")]
+            alarms = [k for k in alarms if not any(k.startswith(p) for p in c09.EXEMPT)]
+            ctx.ob("C01.R5.query-argument-bounded", fn + tag, loc(F.body(fn).raw["span"]), not alarms, "raw-value-propagation",
+                   "the argument reaches no unguarded arithmetic or unwrap: %s" % (alarms or "ok"))
+            ctx.count("bitvector-query-entries" + tag)
+    ctx.floor("bitvector-query-entries" + tag, 6)
     co = F.body("<bit_vector::BitVector as ops::BitVec<'a>>::count_ones")
     ctx.ob("C01.R3.count-ones-is-cached-field", co.name + tag, loc(co.raw["span"]), self_path(co.term_of_local(0)) == ["ones"], "term-shape", "count_ones() = %s" % tstr(co.term_of_local(0)), nontrivial=False)
     ln = F.body("<bit_vector::BitVector as ops::BitVec<'a>>::len")
